@@ -1,14 +1,14 @@
 #!/venv/bin/python
-# replay for obligation rt:c07/mlsx/modify-utc-seconds
+# replay for obligation rt:c07/list/modify-to-the-day
 # path: 
-# run: AIOFTP_REPO=/repo /venv/bin/python /verif/replays/C07_rt_c07_mlsx_modify-utc-seconds.py
+# run: AIOFTP_REPO=/repo /venv/bin/python /verif/replays/C07_rt_c07_list_modify-to-the-day.py
 import os, sys
 sys.path.insert(0, os.path.join(os.environ.get("AIOFTP_REPO", "/repo"), "src"))
-OBLIGATION = 'rt:c07/mlsx/modify-utc-seconds'
-MODEL = {'mode': 16877, 'size': 2147483648, 'mtime': 1076069263.9999998, 'name': 'a;b=c', 'kind': 'mlsx'}
+OBLIGATION = 'rt:c07/list/modify-to-the-day'
+MODEL = {'mode': 16804, 'size': 1, 'mtime': 1855698177, 'name': 'b c', 'kind': 'list'}
 SOLVER_NOTE = 'found by the bounded run-time contract checker on the real code'
 
 import json, subprocess
-inp = {'mode': 16877, 'size': 2147483648, 'mtime': 1076069263.9999998, 'name': 'a;b=c', 'kind': 'mlsx'}
+inp = {'mode': 16804, 'size': 1, 'mtime': 1855698177, 'name': 'b c', 'kind': 'list'}
 p = subprocess.run(["/venv/bin/python", '/verif/rt/c07_rt.py', "replay", json.dumps(inp)], capture_output=True, text=True, env=dict(os.environ))
 print(p.stdout.strip() or p.stderr.strip())
